@@ -150,6 +150,71 @@ def fresh_family(run, rng, n):
     return len(progs)
 
 
+SHARED_ROUTES = [
+    ("param default (index missing)", "p = [] param [0, d];"),
+    ("param default (wrong type)", "p = [5] param [0, d, [[]]];"),
+    ("params default (argument missing)", "[] params [[\"_q\", d]]; p = _q;"),
+    ("params default (wrong type)", "[5] params [[\"_q\", d, [[]]]]; p = _q;"),
+    ("param, argument passed", "p = [d] param [0];"),
+    ("param, argument passed beside a default", "p = [d] param [0, [9]];"),
+    ("params, argument passed", "[d] params [\"_q\"]; p = _q;"),
+    ("params, argument passed beside a default", "[d] params [[\"_q\", [9], [[]]]]; p = _q;"),
+    ("getVariable default", "p = missionNamespace getVariable [\"nosuchvar\", d];"),
+    ("getVariable", "missionNamespace setVariable [\"gv\", d]; p = missionNamespace getVariable \"gv\";"),
+    ("call argument", "p = d call {_this};"),
+    ("call argument in an array", "p = [d] call {_this select 0};"),
+    ("forEach element", "{p = _x} forEach [d];"),
+    ("count element", "{p = _x; true} count [d];"),
+    ("apply result element", "p = ([d] apply {_x}) select 0;"),
+    ("select-filter result element", "p = ([d] select {true}) select 0;"),
+    ("element of a concatenation", "p = ([d] + []) select 0;"),
+    ("element of a range", "p = ([d, 1] select [0, 1]) select 0;"),
+    ("value of if-then-else", "p = if (true) then {d} else {[]};"),
+    ("value of a block", "p = call {d};"),
+    ("select", "p = [d, 1] select 0;"),
+    ("nested select", "p = [[d]] select 0 select 0;"),
+    ("deleteAt result", "p = [0, d] deleteAt 1;"),
+    ("pushBack then select", "a = []; a pushBack d; p = a select 0;"),
+    ("append then select", "a = []; a append [d]; p = a select 0;"),
+    ("set then select", "a = [0]; a set [0, d]; p = a select 0;"),
+    ("hashmap value", "h = createHashMap; h set [\"k\", d]; p = h get \"k\";"),
+    ("second variable", "q = d; p = q;"),
+    ("private variable", "private _q = d; p = _q;"),
+]
+
+
+def shared_family(run, rng, n):
+    """Implementation only: the places that hand over an EXISTING array - a default of param / params / getVariable / getOrDefault, a
+    passed argument, an element, _x, _this, the value of a block - hand over the array itself, never a copy: an in-place operation
+    through the new name is seen through the old one and the other way round, also for the array nested inside."""
+    hops = V.build_harness("h_ops", "plain")
+    progs = []
+    for i in range(n):
+        what, route = SHARED_ROUTES[i % len(SHARED_ROUTES)] if i < 2 * len(SHARED_ROUTES) else rng.choice(SHARED_ROUTES)
+        d = "[%d,[%d]]" % (rng.randint(0, 9), rng.randint(0, 9))
+        side, other = rng.choice([("p", "d"), ("d", "p")])
+        ch = rng.choice(["%s pushBack 77;", "%s set [0, 66];", "(%s select 1) pushBack 55;", "%s resize 3;", "reverse %s;",
+                         "%s deleteAt 0;", "%s append [44];"]).replace("%s", side)
+        progs.append(("d = %s; %s %s [str d, str p]" % (d, route, ch), what, ch, other))
+    rc, out, err = V.run_lines_parallel([hops], ["X\t-\t%s" % V.hx(p_[0]) for p_ in progs], timeout=3000)
+    for (p_, what, ch, other), o in zip(progs, out):
+        f = o.split(";")
+        rep = {"kind": "shared-handover", "sqf": p_, "impl": o[:600]}
+        if len(f) != 3 or f[2] == "NONE" or f[0] != "-1":
+            run.violation("a small array program could not be run and printed: " + o[:120], rep)
+            continue
+        val = V.unhx(f[2]).decode("latin-1")
+        parts = split_top(val)
+        if parts is None or len(parts) != 2:
+            run.violation("unexpected result shape: " + val[:120], rep)
+            continue
+        if parts[0] != parts[1]:
+            rep.update(d=parts[0], p=parts[1])
+            run.violation("%s handed over a copy, not the array: after `%s` the other name (%s) shows %s, the changed one %s"
+                          % (what, ch, other, (parts[1] if other == "p" else parts[0])[:60], (parts[0] if other == "p" else parts[1])[:60]), rep)
+    return len(progs)
+
+
 def main(replay=None):
     run = V.Run(PID, "proof")
     rng = run.rng
@@ -255,6 +320,7 @@ def main(replay=None):
     n_rows = rows_family(run, rng, 1200 if thorough else 160)
     kinds["rows-keep-identity"] = n_rows
     kinds["fresh-results"] = fresh_family(run, rng, 1500 if thorough else 200)
+    kinds["shared-handover"] = shared_family(run, rng, 1200 if thorough else 160)
 
     for p in problems:
         run.violation("proof obligation not discharged: " + p, {"broken": p, "theorems": run.cov["theorems"]}, found_input=False)
